@@ -260,6 +260,24 @@ func newC06TwoGroups(T int64) *c06TwoGroups {
 
 // apply: "<1|2>:<block spec of that group>" or "empty"
 func (t *c06TwoGroups) apply(op string) bool {
+	if strings.HasPrefix(op, "12:") {
+		// both groups act in one block: group 1 builds its transactions, group 2 executes the block
+		spec := op[3:]
+		t.a.collect = true
+		ok := t.a.applyBlock(spec)
+		t.a.collect = false
+		if !ok {
+			return false
+		}
+		t.b.pre, t.b.pad = t.a.collected, len(t.a.collected)
+		ok = t.b.applyBlock(spec)
+		t.b.pre, t.b.pad = nil, 0
+		if !ok {
+			return false
+		}
+		t.a.last.res = t.b.last.res
+		return true
+	}
 	actor, other, spec := t.a, t.b, op
 	switch {
 	case strings.HasPrefix(op, "1:"):
